@@ -318,12 +318,59 @@ def _extents(rep, an, tus):
                 sub[cidx.psym(kp)] = DIM(o[1], o[2])
             elif o and o[0] == "data":
                 ptr_of[kp] = o[1]
-        for w in summ.writes:
+        # (3) the glue's cast type fixes the trailing dimensions of the Python array
+        for p in g.params:
+            if p.kind != "ndarray" or not p.casts or p.name not in shapes:
+                continue
+            inner = [int(x) for x in re.findall(r"\[(\d+)\]", p.casts[0][1] or "")]
+            if not inner:
+                continue
+            shp = shapes[p.name]
+            tail = list(shp[-len(inner):]) if len(shp) >= len(inner) else None
+            fac_p = factor.get(p.name, 1)
+            lits = []
+            ok_tail = None
+            if tail is not None and all(re.fullmatch(r"\d+", t) for t in tail):
+                lits = [int(t) for t in tail]
+                if fac_p == 2 and inner and inner[-1] == 2:
+                    ok_tail = lits[-(len(inner) - 1):] == inner[:-1] if len(inner) > 1 else True
+                else:
+                    ok_tail = lits == inner
+            if ok_tail is not None:
+                rep.instance("R13d.extent", s.file, s.qualname, f"phonoc.{s.entry}: {p.name} cast to {p.casts[0][1]}; Python shape {shp}", ok_tail,
+                             f"the glue views '{p.name}' as rows of {inner} elements but the Python array is allocated with trailing shape {tail}: every row is mis-strided", line=s.line)
+        seen_rw = set()
+        for w in list(summ.writes) + list(getattr(summ, "reads", [])):
             if w.base_kind != "param" or w.base not in ptr_of:
                 continue
             pn = ptr_of[w.base]
             dims, fac = py_extent(pn)
             if dims is None:
+                # bounded by the argument's own axes?  (sizes read from shape(k) of this very array)
+                own = {cidx.psym(kp): (o[1], o[2]) for kp, at in zip(kparams, kargs) for o in [g.origin.get(at)] if o and o[0] == "shape" and o[1] == pn}
+                hi0 = _bound(w.index, w.vars) if not w.index.atoms(sp.Function) else None
+                if own and hi0 is not None and not any(str(x).startswith("?") for x in hi0.free_symbols):
+                    pg = [p for p in g.params if p.name == pn][0]
+                    inner = 1
+                    for x in re.findall(r"\[(\d+)\]", (pg.casts[0][1] or "") if pg.casts else ""):
+                        inner *= int(x)
+                    need0 = sp.expand(hi0 + 1)
+                    syms = need0.free_symbols
+                    if syms and syms <= set(own):
+                        prod = sp.Integer(inner)
+                        axes = set()
+                        for sy in syms:
+                            prod *= sy
+                            axes.add(own[sy][1])
+                        key = (pn, w.op == "read", str(need0))
+                        if key not in seen_rw and len(axes) == len(syms):
+                            seen_rw.add(key)
+                            okb = _nonneg(prod - need0)
+                            if not okb:
+                                rep.unknown(f"{s.file}::{s.qualname} phonoc.{s.entry}: {pn}: kernel touches {_clean(need0)} elements; only axes {sorted(axes)} are read by the glue and the allocation shape is not visible (trailing axes unknown)")
+                            if okb:
+                                rep.instance("R13d.extent", s.file, s.qualname, f"phonoc.{s.entry}: kernel {'reads' if w.op == 'read' else 'writes'} {pn}[0 .. {_clean(need0)}) <= its own axes {sorted(axes)} x {inner}", okb,
+                                             f"the kernel {'reads' if w.op == 'read' else 'writes'} up to element {_clean(need0)} of '{pn}', beyond the product of the axes its sizes are read from ({_clean(prod)})", line=s.line)
                 continue
             have = sp.Integer(fac)
             for dk in dims:
@@ -375,7 +422,8 @@ def _extents(rep, an, tus):
                 rep.unknown(f"{s.file}::{s.qualname} phonoc.{s.entry}: {pn}: needs {_clean(need)}, has {_clean(have)}: not comparable symbolically")
                 continue
             decided += 1
-            rep.instance("R13d.extent", s.file, s.qualname, f"phonoc.{s.entry}: kernel writes {pn}[0 .. {_clean(need)}) ; Python allocates {_clean(have)} elements", ok,
-                         f"the kernel {kname} writes up to element {_clean(need)} of '{pn}' but the call site allocates {_clean(have)} (shape {shapes.get(pn)})", line=s.line,
+            verb = "reads" if w.op == "read" else "writes"
+            rep.instance("R13d.extent", s.file, s.qualname, f"phonoc.{s.entry}: kernel {verb} {pn}[0 .. {_clean(need)}) ; Python allocates {_clean(have)} elements", ok,
+                         f"the kernel {kname} {verb} up to element {_clean(need)} of '{pn}' but the call site allocates {_clean(have)} (shape {shapes.get(pn)})", line=s.line,
                          sample={"site": f"{s.qualname} -> {s.entry}", "array": pn, "needs": _clean(need), "has": _clean(have)})
     rep.extra["extent_pairs_decided"] = decided
